@@ -2,7 +2,7 @@
 // Operational specification of the undeclared-fixture scanner of src/fixtures/undeclared.rs (property C17):
 // WHICH names of a function body are flagged, in which order, with which fields -- as functions of the real
 // rustpython AST.  Mirrors exactly which sub-expressions / statements the scanner visits.
-// Needs: build/astspec.rs, prelude/ast_spec.rs (target_names / targets_from), prelude/line_spec.rs + bytes.rs,
+// Needs: build/astspec.rs, prelude/ast_spec.rs (target_names / targets_from / alias_bound), prelude/line_spec.rs + bytes.rs,
 // prelude/visit_spec.rs (vline / vcol / r_start / r_end / AExprName), prelude/types.rs + dbview.rs (DefV, bucket),
 // prelude/undecl_avail_spec.rs (op_is_available); the unit declares `ExUndeclaredFixture`.
 pub type AWithItem = rustpython_parser::ast::WithItem;
@@ -47,16 +47,28 @@ pub open spec fn name_entry(n: AExprName, c: ScanV) -> UndV {
 }
 
 // ---- expressions ---------------------------------------------------------------------------------------------
-/// findings of visit_expr_for_names(e), in recording order.  Visited: Name; Call (func, then positional args --
-/// NOT keywords); Attribute (value); BinOp (left, right); UnaryOp; Compare (left, comparators); Subscript (value,
-/// slice); List / Tuple elements; Dict (the keys that are present, then ALL values); Await.  Every other expression
-/// form records nothing and is not descended into.
+pub type AKeyword = rustpython_parser::ast::Keyword;
+pub type AHandler = rustpython_parser::ast::ExceptHandler;
+pub type AAlias = rustpython_parser::ast::Alias;
+/// findings of visit_expr_for_names(e), in recording order.  Visited: Name; Call (func, positional args, then the
+/// VALUES of the keyword arguments); Starred (value); BoolOp (values); IfExp (test, body, orelse); Set / List / Tuple
+/// elements; Slice (lower, upper, step); Attribute (value); BinOp (left, right); UnaryOp; Compare (left,
+/// comparators); Subscript (value, slice); Dict (the keys that are present, then ALL values); Await.  Every other
+/// expression form (walrus, lambda, comprehensions, generator expressions, yield, f-strings, constants) records
+/// nothing and is not descended into.
 pub open spec fn scan_expr(e: Expr, c: ScanV) -> Seq<UndV>
     decreases e, 0int
 {
     match e {
         Expr::Name(n) => if name_flag(n, c) { seq![name_entry(n, c)] } else { Seq::empty() },
-        Expr::Call(x) => scan_expr(*x.func, c) + scan_exprs(x.args@, x.args@.len() as int, c),
+        Expr::Call(x) => scan_expr(*x.func, c) + scan_exprs(x.args@, x.args@.len() as int, c) + scan_kws(x.keywords@, x.keywords@.len() as int, c),
+        Expr::Starred(x) => scan_expr(*x.value, c),
+        Expr::BoolOp(x) => scan_exprs(x.values@, x.values@.len() as int, c),
+        Expr::IfExp(x) => scan_expr(*x.test, c) + scan_expr(*x.body, c) + scan_expr(*x.orelse, c),
+        Expr::Set(x) => scan_exprs(x.elts@, x.elts@.len() as int, c),
+        Expr::Slice(x) => (match x.lower { Some(b) => scan_expr(*b, c), None => Seq::empty() })
+            + (match x.upper { Some(b) => scan_expr(*b, c), None => Seq::empty() })
+            + (match x.step { Some(b) => scan_expr(*b, c), None => Seq::empty() }),
         Expr::Attribute(x) => scan_expr(*x.value, c),
         Expr::BinOp(x) => scan_expr(*x.left, c) + scan_expr(*x.right, c),
         Expr::UnaryOp(x) => scan_expr(*x.operand, c),
@@ -74,6 +86,12 @@ pub open spec fn scan_exprs(es: Seq<Expr>, n: int, c: ScanV) -> Seq<UndV>
     decreases es, n
 {
     if n <= 0 || n > es.len() { Seq::empty() } else { scan_exprs(es, n - 1, c) + scan_expr(es[n - 1], c) }
+}
+/// the VALUES of the first n keyword arguments (`f(x=v)`, `f(**v)`)
+pub open spec fn scan_kws(ks: Seq<AKeyword>, n: int, c: ScanV) -> Seq<UndV>
+    decreases ks, n
+{
+    if n <= 0 || n > ks.len() { Seq::empty() } else { scan_kws(ks, n - 1, c) + scan_expr(ks[n - 1].value, c) }
 }
 /// the first n dict keys (`None` = a `**mapping` entry: no key expression)
 pub open spec fn scan_keys(ks: Seq<Option<Expr>>, n: int, c: ScanV) -> Seq<UndV>
@@ -94,9 +112,11 @@ pub open spec fn scan_items(items: Seq<AWithItem>, n: int, c: ScanV) -> Seq<UndV
 }
 
 // ---- statements ----------------------------------------------------------------------------------------------
-/// findings of visit_stmt_for_names(s).  Visited: Expr; Assign / AugAssign (value only); Return; If (test, body,
-/// orelse); While (test, body -- NOT orelse); For / AsyncFor (iter, body -- NOT target, NOT orelse); With /
-/// AsyncWith (context expressions, body); Assert (test, msg).  Every other statement records nothing.
+/// findings of visit_stmt_for_names(s).  Visited: Expr; Assign / AugAssign / AnnAssign (VALUE only); Raise (exc,
+/// cause); Return; Try (body, the BODIES of the handlers, orelse, finalbody -- not the handlers' type expressions);
+/// If (test, body, orelse); While (test, body, orelse); For / AsyncFor (iter, body, orelse -- NOT target); With /
+/// AsyncWith (context expressions, body -- NOT the `as` targets); Assert (test, msg).  Every other statement (nested
+/// def / class, del, match, try*, imports, global ...) records nothing.
 pub open spec fn scan_stmt(s: Stmt, c: ScanV) -> Seq<UndV>
     decreases s, 0int
 {
@@ -104,12 +124,16 @@ pub open spec fn scan_stmt(s: Stmt, c: ScanV) -> Seq<UndV>
         Stmt::Expr(x) => scan_expr(*x.value, c),
         Stmt::Assign(x) => scan_expr(*x.value, c),
         Stmt::AugAssign(x) => scan_expr(*x.value, c),
+        Stmt::AnnAssign(x) => scan_opt(x.value, c),
+        Stmt::Raise(x) => scan_opt(x.exc, c) + scan_opt(x.cause, c),
+        Stmt::Try(x) => scan_body(x.body@, x.body@.len() as int, c) + scan_handlers(x.handlers@, x.handlers@.len() as int, c)
+            + scan_body(x.orelse@, x.orelse@.len() as int, c) + scan_body(x.finalbody@, x.finalbody@.len() as int, c),
         Stmt::Return(x) => scan_opt(x.value, c),
         Stmt::If(x) => scan_expr(*x.test, c) + scan_body(x.body@, x.body@.len() as int, c) + scan_body(x.orelse@, x.orelse@.len() as int, c),
-        Stmt::While(x) => scan_expr(*x.test, c) + scan_body(x.body@, x.body@.len() as int, c),
-        Stmt::For(x) => scan_expr(*x.iter, c) + scan_body(x.body@, x.body@.len() as int, c),
+        Stmt::While(x) => scan_expr(*x.test, c) + scan_body(x.body@, x.body@.len() as int, c) + scan_body(x.orelse@, x.orelse@.len() as int, c),
+        Stmt::For(x) => scan_expr(*x.iter, c) + scan_body(x.body@, x.body@.len() as int, c) + scan_body(x.orelse@, x.orelse@.len() as int, c),
         Stmt::With(x) => scan_items(x.items@, x.items@.len() as int, c) + scan_body(x.body@, x.body@.len() as int, c),
-        Stmt::AsyncFor(x) => scan_expr(*x.iter, c) + scan_body(x.body@, x.body@.len() as int, c),
+        Stmt::AsyncFor(x) => scan_expr(*x.iter, c) + scan_body(x.body@, x.body@.len() as int, c) + scan_body(x.orelse@, x.orelse@.len() as int, c),
         Stmt::AsyncWith(x) => scan_items(x.items@, x.items@.len() as int, c) + scan_body(x.body@, x.body@.len() as int, c),
         Stmt::Assert(x) => scan_expr(*x.test, c) + scan_opt(x.msg, c),
         _ => Seq::empty(),
@@ -120,44 +144,81 @@ pub open spec fn scan_body(b: Seq<Stmt>, n: int, c: ScanV) -> Seq<UndV>
 {
     if n <= 0 || n > b.len() { Seq::empty() } else { scan_body(b, n - 1, c) + scan_stmt(b[n - 1], c) }
 }
+/// the bodies of the first n except handlers
+pub open spec fn scan_handlers(hs: Seq<AHandler>, n: int, c: ScanV) -> Seq<UndV>
+    decreases hs, n
+{
+    if n <= 0 || n > hs.len() { Seq::empty() } else {
+        match hs[n - 1] { rustpython_parser::ast::ExceptHandler::ExceptHandler(h) => scan_handlers(hs, n - 1, c) + scan_body(h.body@, h.body@.len() as int, c) }
+    }
+}
 
 // ---- local variables -----------------------------------------------------------------------------------------
-/// every name of `names` is (re)bound to `line`; other entries keep their value
+/// every name of `names` is (re)bound to `line`; other entries keep their value (the `imports` loop: plain insert)
 pub open spec fn bind_all(m: Map<Seq<char>, usize>, names: Set<Seq<char>>, line: usize) -> Map<Seq<char>, usize> {
     Map::new(m.dom().union(names), |k: Seq<char>| if names.contains(k) { line } else { m[k] })
 }
-/// the `as` targets of the first n `with` items, all bound to the line of the `with` statement
+/// bind_local: ONE binding of k at `line` -- the EARLIEST line on which a name is bound is kept
+pub open spec fn min_bind(m: Map<Seq<char>, usize>, k: Seq<char>, line: usize) -> Map<Seq<char>, usize> {
+    if m.contains_key(k) && m[k] <= line { m } else { m.insert(k, line) }
+}
+/// bind_local for every name of `names` (any order: the result does not depend on it)
+pub open spec fn bind_min(m: Map<Seq<char>, usize>, names: Set<Seq<char>>, line: usize) -> Map<Seq<char>, usize> {
+    Map::new(m.dom().union(names), |k: Seq<char>| if names.contains(k) && !(m.contains_key(k) && m[k] <= line) { line } else { m[k] })
+}
+/// the `as` targets of the first n `with` items, all bound at the line of the `with` statement
 pub open spec fn with_bind(items: Seq<AWithItem>, n: int, m: Map<Seq<char>, usize>, line: usize) -> Map<Seq<char>, usize>
     decreases n
 {
     if n <= 0 || n > items.len() { m } else {
         match items[n - 1].optional_vars {
-            Some(v) => bind_all(with_bind(items, n - 1, m, line), target_names(*v), line),
+            Some(v) => bind_min(with_bind(items, n - 1, m, line), target_names(*v), line),
             None => with_bind(items, n - 1, m, line),
         }
     }
 }
-/// collect_local_variables, one statement: a binding statement (re)binds its target names (prelude/ast_spec.rs
-/// target_names: Name, or the elements of tuple / list targets, recursively) to the line of the STATEMENT'S START --
-/// a later binding of the same name REPLACES the earlier line.  Binding statements: Assign, AnnAssign, AugAssign,
-/// For / AsyncFor (target), With / AsyncWith (`as` targets).  Descended into: For / AsyncFor / While / With /
-/// AsyncWith bodies, If body + orelse, Try body + orelse + finalbody.  NOT descended into: loop `orelse`, except
-/// handlers, match, nested def / class; NOT binding: import, def, class, `except .. as`, walrus, del, global.
+/// `alias.name.split('.').next().unwrap_or("")`: the text before the first '.' (string code: left abstract)
+pub uninterp spec fn dotted_head(name: Seq<char>) -> Seq<char>;
+/// what `import a.b [as c]` binds: c, else the first dotted component a
+pub open spec fn import_bound(a: AAlias) -> Seq<char> { match a.asname { Some(n) => idv(&n), None => dotted_head(idv(&a.name)) } }
+/// the names the first n aliases of an import statement bind (dotted: `import ..`, else `from .. import ..`: asname,
+/// else the name itself = prelude/ast_spec.rs alias_bound), all at the line of the statement
+pub open spec fn alias_name(a: AAlias, dotted: bool) -> Seq<char> { if dotted { import_bound(a) } else { alias_bound(a) } }
+pub open spec fn import_bind(names: Seq<AAlias>, n: int, dotted: bool, m: Map<Seq<char>, usize>, line: usize) -> Map<Seq<char>, usize>
+    decreases n
+{
+    if n <= 0 || n > names.len() { m } else { min_bind(import_bind(names, n - 1, dotted, m, line), alias_name(names[n - 1], dotted), line) }
+}
+/// collect_local_variables, one statement: every binder records its names (prelude/ast_spec.rs target_names: Name, or
+/// the elements of tuple / list targets, recursively) at the line of the STATEMENT'S START through bind_local -- the
+/// EARLIEST line per name is kept.  Binders: Assign, AnnAssign, AugAssign, For / AsyncFor (target), With / AsyncWith
+/// (`as` targets), `except .. as name` (line of the handler), import / from-import (asname, else first dotted
+/// component / name), nested def / async def / class (their name).  Descended into: For / AsyncFor / While body +
+/// orelse, If body + orelse, With / AsyncWith body, Try body + handler bodies + orelse + finalbody.  NOT recorded:
+/// walrus, match captures, try*, del, global / nonlocal; nested def / class BODIES are not descended into.
 pub open spec fn locals_stmt(s: Stmt, li: Seq<usize>, m: Map<Seq<char>, usize>) -> Map<Seq<char>, usize>
     decreases s, 0int
 {
     match s {
-        Stmt::Assign(x) => bind_all(m, targets_from(x.targets@, 0), vline(li, r_start(x.range))),
-        Stmt::AnnAssign(x) => bind_all(m, target_names(*x.target), vline(li, r_start(x.range))),
-        Stmt::AugAssign(x) => bind_all(m, target_names(*x.target), vline(li, r_start(x.range))),
-        Stmt::For(x) => locals_body(x.body@, x.body@.len() as int, li, bind_all(m, target_names(*x.target), vline(li, r_start(x.range)))),
-        Stmt::AsyncFor(x) => locals_body(x.body@, x.body@.len() as int, li, bind_all(m, target_names(*x.target), vline(li, r_start(x.range)))),
-        Stmt::While(x) => locals_body(x.body@, x.body@.len() as int, li, m),
+        Stmt::Assign(x) => bind_min(m, targets_from(x.targets@, 0), vline(li, r_start(x.range))),
+        Stmt::AnnAssign(x) => bind_min(m, target_names(*x.target), vline(li, r_start(x.range))),
+        Stmt::AugAssign(x) => bind_min(m, target_names(*x.target), vline(li, r_start(x.range))),
+        Stmt::For(x) => locals_body(x.orelse@, x.orelse@.len() as int, li,
+                            locals_body(x.body@, x.body@.len() as int, li, bind_min(m, target_names(*x.target), vline(li, r_start(x.range))))),
+        Stmt::AsyncFor(x) => locals_body(x.orelse@, x.orelse@.len() as int, li,
+                            locals_body(x.body@, x.body@.len() as int, li, bind_min(m, target_names(*x.target), vline(li, r_start(x.range))))),
+        Stmt::While(x) => locals_body(x.orelse@, x.orelse@.len() as int, li, locals_body(x.body@, x.body@.len() as int, li, m)),
         Stmt::If(x) => locals_body(x.orelse@, x.orelse@.len() as int, li, locals_body(x.body@, x.body@.len() as int, li, m)),
         Stmt::With(x) => locals_body(x.body@, x.body@.len() as int, li, with_bind(x.items@, x.items@.len() as int, m, vline(li, r_start(x.range)))),
         Stmt::AsyncWith(x) => locals_body(x.body@, x.body@.len() as int, li, with_bind(x.items@, x.items@.len() as int, m, vline(li, r_start(x.range)))),
         Stmt::Try(x) => locals_body(x.finalbody@, x.finalbody@.len() as int, li,
-                            locals_body(x.orelse@, x.orelse@.len() as int, li, locals_body(x.body@, x.body@.len() as int, li, m))),
+                            locals_body(x.orelse@, x.orelse@.len() as int, li,
+                                locals_handlers(x.handlers@, x.handlers@.len() as int, li, locals_body(x.body@, x.body@.len() as int, li, m)))),
+        Stmt::Import(x) => import_bind(x.names@, x.names@.len() as int, true, m, vline(li, r_start(x.range))),
+        Stmt::ImportFrom(x) => import_bind(x.names@, x.names@.len() as int, false, m, vline(li, r_start(x.range))),
+        Stmt::FunctionDef(x) => min_bind(m, idv(&x.name), vline(li, r_start(x.range))),
+        Stmt::AsyncFunctionDef(x) => min_bind(m, idv(&x.name), vline(li, r_start(x.range))),
+        Stmt::ClassDef(x) => min_bind(m, idv(&x.name), vline(li, r_start(x.range))),
         _ => m,
     }
 }
@@ -165,6 +226,20 @@ pub open spec fn locals_body(b: Seq<Stmt>, n: int, li: Seq<usize>, m: Map<Seq<ch
     decreases b, n
 {
     if n <= 0 || n > b.len() { m } else { locals_stmt(b[n - 1], li, locals_body(b, n - 1, li, m)) }
+}
+/// the first n except handlers: `as name` (if any) at the handler's line, then the handler's body
+pub open spec fn handler_name_bind(nm: Option<Identifier>, m: Map<Seq<char>, usize>, line: usize) -> Map<Seq<char>, usize> {
+    match nm { Some(i) => min_bind(m, idv(&i), line), None => m }
+}
+pub open spec fn locals_handlers(hs: Seq<AHandler>, n: int, li: Seq<usize>, m: Map<Seq<char>, usize>) -> Map<Seq<char>, usize>
+    decreases hs, n
+{
+    if n <= 0 || n > hs.len() { m } else {
+        match hs[n - 1] {
+            rustpython_parser::ast::ExceptHandler::ExceptHandler(h) =>
+                locals_body(h.body@, h.body@.len() as int, li, handler_name_bind(h.name, locals_handlers(hs, n - 1, li, m), vline(li, r_start(h.range)))),
+        }
+    }
 }
 
 // ---- a whole function ----------------------------------------------------------------------------------------
@@ -202,6 +277,16 @@ pub proof fn lemma_bind_all_insert(m: Map<Seq<char>, usize>, ps: Set<Seq<char>>,
     ensures bind_all(m, ps, line).insert(k, line) == bind_all(m, ps.insert(k), line)
 {
     assert(bind_all(m, ps, line).insert(k, line) =~= bind_all(m, ps.insert(k), line));
+}
+pub proof fn lemma_bind_min_step(m: Map<Seq<char>, usize>, ps: Set<Seq<char>>, k: Seq<char>, line: usize)
+    ensures min_bind(bind_min(m, ps, line), k, line) == bind_min(m, ps.insert(k), line)
+{
+    assert(min_bind(bind_min(m, ps, line), k, line) =~= bind_min(m, ps.insert(k), line));
+}
+pub proof fn lemma_bind_min_empty(m: Map<Seq<char>, usize>, line: usize)
+    ensures bind_min(m, Set::empty(), line) == m
+{
+    assert(bind_min(m, Set::empty(), line) =~= m);
 }
 pub proof fn lemma_bind_all_empty(m: Map<Seq<char>, usize>, line: usize)
     ensures bind_all(m, Set::empty(), line) == m
